@@ -250,6 +250,10 @@ METHODS = {
     "cmp": ("({0} ?= {1})", "ordering"),
     "abs_cmp": ("((Z.abs {0}) ?= (Z.abs {1}))", "ordering"),
     "is_le": ("(match {0} with Gt => false | _ => true end)", "bool"),
+    "is_lt": ("(match {0} with Lt => true | _ => false end)", "bool"),
+    # round 4 (repaired debug assertion of round_fract): BitTest::bit_len of IBig / Word, usize::saturating_mul
+    "bit_len": ("(bit_len_gen {0})", "Z"),
+    "saturating_mul": ("(saturating_mul_gen usize_max {0} {1})", "Z"),
     "digits_ub": ("(digits_ub {0})", "Z"),
 }
 PATHS = dict(T.ROUND_PATHS)
@@ -324,13 +328,17 @@ def render_prim(repo):
     trait = impl_block(src, r"\bpub\s+trait\s+Round\s*:\s*Copy\s*\{", "trait Round")
     out = ["(** GENERATED by tools/translate_c10_r3.py from float/src/round.rs (Round::round_fract, Round::round_ratio),",
            "    float/src/repr.rs (Repr::smaller_than_one) and float/src/round_ops.rs (FBig::round) - do not edit. *)",
-           "From Dashu Require Import Base.Prelude.", "From DashuGen Require Import RoundTables.", "Open Scope Z_scope.", ""]
+           "From Dashu Require Import Base.Prelude.", "From DashuGen Require Import RoundTables.", "Open Scope Z_scope.", "",
+           "(* library functions the assertion of round_fract calls (fixed text): BitTest::bit_len of IBig (of the magnitude) and",
+           "   of Word, usize::saturating_mul on non-negative operands (usize_max = usize::MAX) *)",
+           "Definition bit_len_gen (z : Z) : Z := if z =? 0 then 0 else Z.log2 (Z.abs z) + 1.",
+           "Definition saturating_mul_gen (usize_max a b : Z) : Z := Z.min (a * b) usize_max.", ""]
 
     # round_fract: the debug assertion, then the body with the two f32 tests abstracted
     body = fn_block(trait, "round_fract", "trait Round")
     cond, body = assertion(body, "debug_assert", "round_fract")
     env = {"integer": ("integer", "Z"), "fract": ("fract", "Z"), "precision": ("precision", "Z")}
-    out.append("Definition round_fract_pre_gen (B : Z) (fract precision : Z) : bool :=\n  %s.\n" % translate_expr(cond, env, "round_fract assertion"))
+    out.append("Definition round_fract_pre_gen (usize_max B : Z) (fract precision : Z) : bool :=\n  %s.\n" % translate_expr(cond, env, "round_fract assertion"))
     n_lets = len(re.findall(r"\blet\s*\(\s*\w+\s*,\s*\w+\s*\)\s*=\s*\w+\s*\.\s*log2_bounds\s*\(\s*\)\s*;", body))
     body = re.sub(r"\blet\s*\(\s*\w+\s*,\s*\w+\s*\)\s*=\s*\w+\s*\.\s*log2_bounds\s*\(\s*\)\s*;", "", body)
     body, n_gt = re.subn(r"\blb\s*\+\s*[\d._]+\s*>\s*b_ub\s*\*\s*precision\s+as\s+f32", "coarse_gt(fmag, precision)", body)
